@@ -22,7 +22,10 @@ EXPLANATION = 'bounded-exhaustive program families on the real tifa_analysis; in
 
 # (snippet, belongs to the introductory subset?)
 SNIP = [
-    ("x = 1", 1), ("x: int = 1", 1), ("a, *b = [1, 2, 3]", 0), ("x = [i for i in range(3)]", 1),
+    ("x = 1", 1), ("x: int = 1", 1),
+    # a comprehension whose loop variable has the name of an existing variable of another type (issues located at the
+    # comprehension itself)
+    ("x = 'abc'\nys = [x for x in [1, 2]]\nprint(ys, x)", 1), ("i = 'k'\nzs = {i: i for i in range(3)}\nprint(zs, i)", 0), ("a, *b = [1, 2, 3]", 0), ("x = [i for i in range(3)]", 1),
     ("x = {i: i for i in range(3)}", 0), ("x = {i for i in range(3)}", 0), ("x = sum(i for i in range(3))", 0),
     ("f = lambda a: a", 0), ("def fn(a, b=1, *c, d=2, **e):\n    return a", 0),
     ("class A:\n    x = 1\n    def m(self):\n        return self.x", 0),
@@ -183,6 +186,23 @@ def analyse(ctx, code, must_complete, what):
             ctx.fail({'symptom': 'issues of an analysis on an own report are not recorded on that report'}, program=code, labels=lost)
     except BaseException as e:   # noqa
         ctx.fail({'symptom': 'tifa_analysis(report=own) raised', 'exception': type(e).__name__}, program=code, message=str(e)[:200])
+    # the same program as the second part of a file analysed section by section: the same issues, each on its line of
+    # the *file* (which is also "within the analysed source": the file the student handed in)
+    pre = "pre0 = 0\nprint(pre0)\n##### Part 1\n"
+    cmds.clear_report()
+    cmds.contextualize_report(pre + code)
+    ctx.step('tifa_analysis (as section 1 of a sectioned file)')
+    try:
+        from pedal.source.sections import separate_into_sections, next_section
+        separate_into_sections(independent=True)
+        next_section()
+        t5 = tifa_analysis()
+        shifted = sorted([(lab, name, None if line is None else line + 3) for lab, name, line in first], key=repr)
+        if _issues(t5) != shifted or bool(t5.success) != bool(t.success):
+            ctx.fail({'symptom': 'analysis as a section of a file yields different issues or lines'}, program=code,
+                     alone=first, as_section=_issues(t5), offset=3)
+    except BaseException as e:   # noqa
+        ctx.fail({'symptom': 'tifa_analysis in a section raised', 'exception': type(e).__name__}, program=code, message=str(e)[:200])
     if not t.success:
         if must_complete:
             ctx.fail({'symptom': 'internal failure instead of a completed analysis', 'what': what,
